@@ -181,13 +181,24 @@ func VH_C03_SNPs_e2e() {
 // VH_C03_wide: a 12-column alignment (positions >= 10) that equals the reference except at two columns placed
 // anywhere, whole SNPs() end to end.
 func VH_C03_wide() {
-	W := 12
+	W := vParam("W")
 	hard := vBool("hardGaps")
 	BS := vBaseSetTable(hard)
 	UP := vUpperTable()
-	ref := []byte("ACGTACGTACGT")
-	p1 := vChoice("p1", W)
-	p2 := vChoice("p2", W)
+	ref := make([]byte, W)
+	for i := range ref {
+		ref[i] = "ACGT"[i%4]
+	}
+	var p1, p2 int
+	if W <= 20 {
+		p1 = vChoice("p1", W)
+		p2 = vChoice("p2", W)
+	} else {
+		// long rows: the two columns sit where positions gain a digit, or at either end
+		menu := []int{0, 8, 9, 10, 98, 99, 100, W - 1}
+		p1 = menu[vChoice("p1", len(menu))]
+		p2 = menu[vChoice("p2", len(menu))]
+	}
 	vAssume(p1 < p2)
 	ref[p1] = vNuc("r1", sigma34)
 	q := make([][]byte, 2)
